@@ -535,15 +535,23 @@ def check_unit(unit, outdir, rlimit=None):
         if d.get("code") is not None or not VERIF_FAIL_RE.search(d.get("message", "")):
             raise InfraError("verus/rustc rejected unit %s (not a verification failure): %s" % (
                 unit.name, d.get("rendered", d.get("message", ""))[:3000]))
-        lines = [s["line_start"] for s in d["spans"] if os.path.basename(s["file_name"]) == base]
+        spans = [s for s in d["spans"] if os.path.basename(s["file_name"]) == base]
+        # the PRIMARY span is where the obligation arose (call site, end of body, loop); secondary
+        # spans point at the clause that failed - for "precondition not satisfied" that is the
+        # callee's `requires`, i.e. another function (attributing the failure there lost seed C12-6)
+        spans.sort(key=lambda s: 0 if s.get("is_primary") else 1)
+        lines = [s["line_start"] for s in spans]
         if any(abs(l - em.canary_line) <= 3 for l in lines):
             canary_failed = True
             continue
         hit = None
-        for l in lines:
-            for f in em.fns:
-                if f["start_line"] <= l <= f["end_line"]:
-                    hit = f
+        for want_body in (True, False):
+            for l in lines:
+                for f in em.fns:
+                    if f["start_line"] <= l <= f["end_line"] and (not want_body or f["mode"] == "verify"):
+                        hit = f
+                        break
+                if hit:
                     break
             if hit:
                 break
